@@ -41,15 +41,23 @@ class StringSimplifyConstant:
     def filter(self, node):
         return is_string_const(node) and node != '""'
 
+    def __literal(self, content):
+        """Return a string literal with the given content."""
+        content = content.replace('"', '""')
+        return Node(f'"{content}"')
+
     def mutations(self, node):
         yield Simplification({node.id: Node('""')}, [])
-        content = node[1:-1]
+        # shorten the actual content, where "" stands for a single quote, so
+        # that we never cut through the middle of such an escape sequence
+        content = node[1:-1].replace('""', '"')
         for sec in nodes.binary_search(len(content)):
             start = self.__fix_escape_sequences(content, sec[0])
             yield Simplification(
-                {node.id: Node(f'"{content[:start]}{content[sec[1]:]}"')}, [])
-        yield Simplification({node.id: Node(f'"{content[1:]}"')}, [])
-        yield Simplification({node.id: Node(f'"{content[:-1]}"')}, [])
+                {node.id: self.__literal(content[:start] + content[sec[1]:])},
+                [])
+        yield Simplification({node.id: self.__literal(content[1:])}, [])
+        yield Simplification({node.id: self.__literal(content[:-1])}, [])
 
     def global_mutations(self, node, input_):
         for simp in self.mutations(node):
